@@ -1,30 +1,431 @@
 package main
 
-// Model of the subset of package reflect (and the JSON stub codec) that
-// lz's configuration code uses.  Filled in by reflectmodel; see DESIGN.md 2.5.
+// Model of the subset of package reflect (and a stub codec for encoding/json)
+// that lz's configuration code uses. Values live in the engine's own typed heap;
+// go/types supplies field lists, names, tags. Anything outside the subset aborts
+// the run as inconclusive. See DESIGN.md 2.5.
+
+import (
+	"go/types"
+	"reflect"
+	"strings"
+
+	"golang.org/x/tools/go/ssa"
+)
 
 type ReflectValue struct {
-	ptr  Ptr        // address of the value (addressable) or
-	val  Value      // the value itself
-	typ  interface{} // types.Type
-	addr bool
+	valid bool
+	typ   types.Type
+	addr  bool  // addressable: the value lives at ptr
+	ptr   Ptr   // address (addr) ...
+	val   Value // ... or the value itself
 }
 
 type ReflectType struct {
-	typ interface{}
+	typ types.Type
 }
 
+var reflectRType = types.NewNamed(types.NewTypeName(0, nil, "reflect.rtype", nil), types.NewStruct(nil, nil), nil)
+
+// jsonDoc is what the stub codec "marshals" a struct to.
+type jsonDoc struct {
+	styp   *types.Struct
+	fields map[string]Value
+}
+
+func isReflectValueType(T types.Type) bool {
+	n, ok := T.(*types.Named)
+	return ok && n.Obj().Pkg() != nil && n.Obj().Pkg().Path() == "reflect" && n.Obj().Name() == "Value"
+}
+
+func (ex *Executor) rvLoad(st *State, v *ReflectValue) Value {
+	if !v.valid {
+		ex.require(st, ex.tt.False, "reflect: call of a Value method on the zero Value")
+	}
+	if v.addr {
+		return ex.load(st, v.ptr, v.typ)
+	}
+	return v.val
+}
+
+func structOf(T types.Type) (*types.Struct, bool) {
+	s, ok := T.Underlying().(*types.Struct)
+	return s, ok
+}
+
+func (ex *Executor) rvField(st *State, v *ReflectValue, i int) *ReflectValue {
+	s, ok := structOf(v.typ)
+	if !v.valid || !ok {
+		ex.require(st, ex.tt.False, "reflect: Field of non-struct Value")
+	}
+	if i < 0 || i >= s.NumFields() {
+		ex.require(st, ex.tt.False, "reflect: Field index out of range")
+	}
+	ft := s.Field(i).Type()
+	if v.addr {
+		p := v.ptr
+		if p.idx != nil {
+			x := ex.cint(st, p.idx)
+			p.base += x * p.stride
+			p.idx = nil
+		}
+		p.base += ex.lay.of(v.typ).fields[i]
+		p.stride = ex.lay.leaves(ft)
+		return &ReflectValue{valid: true, typ: ft, addr: true, ptr: p}
+	}
+	return &ReflectValue{valid: true, typ: ft, val: v.val.(*AggV).elems[i]}
+}
+
+func fieldIndex(s *types.Struct, name string) int {
+	for i := 0; i < s.NumFields(); i++ {
+		if s.Field(i).Name() == name {
+			return i
+		}
+	}
+	return -1
+}
+
+func (ex *Executor) structFieldValue(T types.Type, f *types.Var, idx int) Value {
+	// reflect.StructField{Name, PkgPath, Type, Tag, Offset, Index, Anonymous}
+	a := ex.zeroValue(T).(*AggV)
+	s, _ := structOf(T)
+	for i := 0; i < s.NumFields(); i++ {
+		switch s.Field(i).Name() {
+		case "Name":
+			if f != nil {
+				a.elems[i] = StringV{f.Name()}
+			}
+		case "Type":
+			if f != nil {
+				a.elems[i] = IfaceV{typ: reflectRType, val: &ReflectType{typ: f.Type()}}
+			}
+		}
+	}
+	return a
+}
+
+// reflectCall: package-level functions and methods of reflect.Value.
 func (ex *Executor) reflectCall(st *State, name string, args []Value) Value {
+	tt := ex.tt
+	switch name {
+	case "reflect.ValueOf":
+		iv := args[0].(IfaceV)
+		if iv.typ == nil {
+			return &ReflectValue{}
+		}
+		return &ReflectValue{valid: true, typ: iv.typ, val: iv.val}
+	case "reflect.Indirect":
+		v := args[0].(*ReflectValue)
+		if !v.valid {
+			return v
+		}
+		if pt, ok := v.typ.Underlying().(*types.Pointer); ok {
+			p := ex.rvLoad(st, v).(Ptr)
+			if p.isNil() {
+				return &ReflectValue{}
+			}
+			p.stride = ex.lay.leaves(pt.Elem())
+			return &ReflectValue{valid: true, typ: pt.Elem(), addr: true, ptr: p}
+		}
+		return v
+	case "reflect.TypeOf":
+		iv := args[0].(IfaceV)
+		if iv.typ == nil {
+			return IfaceV{}
+		}
+		return IfaceV{typ: reflectRType, val: &ReflectType{typ: iv.typ}}
+	}
+	if !strings.HasPrefix(name, "(reflect.Value).") {
+		unsupported("reflect model: %s", name)
+	}
+	v := args[0].(*ReflectValue)
+	switch strings.TrimPrefix(name, "(reflect.Value).") {
+	case "IsValid":
+		return tt.Bool(v.valid)
+	case "Type":
+		if !v.valid {
+			ex.require(st, tt.False, "reflect: call of reflect.Value.Type on zero Value")
+		}
+		return IfaceV{typ: reflectRType, val: &ReflectType{typ: v.typ}}
+	case "NumField":
+		s, ok := structOf(v.typ)
+		if !v.valid || !ok {
+			ex.require(st, tt.False, "reflect: call of reflect.Value.NumField on non-struct Value")
+		}
+		return ex.c64(s.NumFields())
+	case "Field":
+		return ex.rvField(st, v, ex.cint(st, args[1].(*Term)))
+	case "FieldByName":
+		s, ok := structOf(v.typ)
+		if !v.valid || !ok {
+			ex.require(st, tt.False, "reflect: call of reflect.Value.FieldByName on non-struct Value")
+		}
+		i := fieldIndex(s, ex.strArg(args[1]))
+		if i < 0 {
+			return &ReflectValue{}
+		}
+		return ex.rvField(st, v, i)
+	case "Int":
+		x := ex.rvLoad(st, v)
+		w, signed, ok := intInfo(v.typ)
+		if !ok || !signed || w == 0 {
+			ex.require(st, tt.False, "reflect: call of reflect.Value.Int on non-int Value")
+		}
+		return tt.Sext(x.(*Term), 64)
+	case "String":
+		x := ex.rvLoad(st, v)
+		if s, ok := x.(StringV); ok {
+			return s
+		}
+		return StringV{"<" + v.typ.String() + " Value>"}
+	case "SetInt":
+		if !v.valid || !v.addr {
+			ex.require(st, tt.False, "reflect: reflect.Value.SetInt using unaddressable value")
+		}
+		w, signed, ok := intInfo(v.typ)
+		if !ok || !signed || w == 0 {
+			ex.require(st, tt.False, "reflect: call of reflect.Value.SetInt on non-int Value")
+		}
+		ex.store(st, v.ptr, tt.Trunc(args[1].(*Term), w), v.typ)
+		return nil
+	case "Set":
+		y := args[1].(*ReflectValue)
+		if !v.valid || !v.addr {
+			ex.require(st, tt.False, "reflect: reflect.Value.Set using unaddressable value")
+		}
+		if !y.valid {
+			ex.require(st, tt.False, "reflect: call of reflect.Value.Set with the zero Value (field missing)")
+		}
+		if !types.AssignableTo(y.typ, v.typ) {
+			ex.require(st, tt.False, "reflect.Set: value of type "+y.typ.String()+" is not assignable to type "+v.typ.String())
+		}
+		ex.store(st, v.ptr, ex.rvLoad(st, y), v.typ)
+		return nil
+	case "Kind":
+		return ex.c64(int(kindOf(v.typ)))
+	case "CanSet":
+		return tt.Bool(v.valid && v.addr)
+	}
 	unsupported("reflect model: %s", name)
 	return nil
 }
 
+func kindOf(T types.Type) reflect.Kind {
+	switch u := T.Underlying().(type) {
+	case *types.Struct:
+		return reflect.Struct
+	case *types.Pointer:
+		return reflect.Ptr
+	case *types.Slice:
+		return reflect.Slice
+	case *types.Basic:
+		switch u.Kind() {
+		case types.Int:
+			return reflect.Int
+		case types.Int64:
+			return reflect.Int64
+		case types.String:
+			return reflect.String
+		case types.Bool:
+			return reflect.Bool
+		}
+	}
+	return reflect.Invalid
+}
+
+// reflectMethod: methods invoked on a reflect.Type interface value.
 func (ex *Executor) reflectMethod(st *State, name string, args []Value) Value {
+	if strings.HasPrefix(name, "(reflect.Value).") {
+		return ex.reflectCall(st, name, args)
+	}
+	rt := args[0].(*ReflectType)
+	sfT := ex.structFieldType()
+	switch strings.TrimPrefix(name, "(reflect.Type).") {
+	case "NumField":
+		s, ok := structOf(rt.typ)
+		if !ok {
+			ex.require(st, ex.tt.False, "reflect: NumField of non-struct type")
+		}
+		return ex.c64(s.NumFields())
+	case "Field":
+		s, ok := structOf(rt.typ)
+		i := ex.cint(st, args[1].(*Term))
+		if !ok || i < 0 || i >= s.NumFields() {
+			ex.require(st, ex.tt.False, "reflect: Field index out of bounds")
+		}
+		return ex.structFieldValue(sfT, s.Field(i), i)
+	case "FieldByName":
+		s, ok := structOf(rt.typ)
+		if !ok {
+			ex.require(st, ex.tt.False, "reflect: FieldByName of non-struct type")
+		}
+		i := fieldIndex(s, ex.strArg(args[1]))
+		if i < 0 {
+			return &AggV{elems: []Value{ex.structFieldValue(sfT, nil, 0), ex.tt.False}}
+		}
+		return &AggV{elems: []Value{ex.structFieldValue(sfT, s.Field(i), i), ex.tt.True}}
+	case "Name":
+		if n, ok := rt.typ.(*types.Named); ok {
+			return StringV{n.Obj().Name()}
+		}
+		return StringV{""}
+	case "String":
+		return StringV{rt.typ.String()}
+	case "Kind":
+		return ex.c64(int(kindOf(rt.typ)))
+	}
 	unsupported("reflect model: %s", name)
 	return nil
 }
 
+func (ex *Executor) structFieldType() types.Type {
+	for _, p := range ex.prog.AllPackages() {
+		if p.Pkg.Path() == "reflect" {
+			if o := p.Pkg.Scope().Lookup("StructField"); o != nil {
+				return o.Type()
+			}
+		}
+	}
+	unsupported("reflect.StructField type not found")
+	return nil
+}
+
+// ---------- JSON stub codec ----------
+
+func hasOmitEmpty(tag string) bool {
+	v, ok := reflect.StructTag(tag).Lookup("json")
+	return ok && strings.Contains(v, "omitempty")
+}
+
+func (ex *Executor) jsonDocs(st *State) map[int]*jsonDoc {
+	if st.docs == nil {
+		st.docs = map[int]*jsonDoc{}
+	}
+	return st.docs
+}
+
+// jsonCall implements json.Marshal / json.Unmarshal for struct values without
+// (Un)MarshalJSON methods (types that have them are dispatched by call()).
 func (ex *Executor) jsonCall(st *State, fr *Frame, name string, args []Value) Value {
+	switch name {
+	case "encoding/json.Marshal":
+		iv := args[0].(IfaceV)
+		T := iv.typ
+		var val Value = iv.val
+		if pt, ok := T.Underlying().(*types.Pointer); ok {
+			p := iv.val.(Ptr)
+			if p.isNil() {
+				unsupported("json stub: Marshal(nil pointer)")
+			}
+			T = pt.Elem()
+			val = ex.load(st, p, T)
+		}
+		s, ok := structOf(T)
+		if !ok {
+			unsupported("json stub: Marshal of %s", T)
+		}
+		doc := &jsonDoc{styp: s, fields: map[string]Value{}}
+		agg := val.(*AggV)
+		for i := 0; i < s.NumFields(); i++ {
+			doc.fields[s.Field(i).Name()] = agg.elems[i]
+		}
+		sv := ex.makeSlice(st, types.Typ[types.Uint8], 2, 2, "json document")
+		o := st.wobj(sv.obj)
+		o.set(0, ex.tt.Const(8, '{'))
+		o.set(1, ex.tt.Const(8, '}'))
+		// documents are immutable and never freed: keep them in a copy-on-write map
+		nd := make(map[int]*jsonDoc, len(st.docs)+1)
+		for k, v := range st.docs {
+			nd[k] = v
+		}
+		nd[sv.obj] = doc
+		st.docs = nd
+		return &AggV{elems: []Value{sv, IfaceV{}}}
+	case "encoding/json.Unmarshal":
+		sv := args[0].(SliceV)
+		doc := st.docs[sv.obj]
+		if doc == nil {
+			unsupported("json stub: Unmarshal of bytes that no Marshal produced (JSON text is outside the model)")
+		}
+		iv := args[1].(IfaceV)
+		pt, ok := iv.typ.Underlying().(*types.Pointer)
+		if !ok {
+			return ex.newOpaqueError(st, "json: Unmarshal(non-pointer)")
+		}
+		p := iv.val.(Ptr)
+		if p.isNil() {
+			return ex.newOpaqueError(st, "json: Unmarshal(nil)")
+		}
+		s, ok := structOf(pt.Elem())
+		if !ok {
+			unsupported("json stub: Unmarshal into %s", pt.Elem())
+		}
+		offs := ex.lay.of(pt.Elem()).fields
+		for i := 0; i < s.NumFields(); i++ {
+			f := s.Field(i)
+			dv, have := doc.fields[f.Name()]
+			if !have {
+				continue // unknown keys are ignored, missing keys leave the target untouched
+			}
+			di := fieldIndex(doc.styp, f.Name())
+			if !types.Identical(doc.styp.Field(di).Type(), f.Type()) {
+				return ex.newOpaqueError(st, "json: cannot unmarshal value into field "+f.Name())
+			}
+			fp := p
+			fp.base += offs[i]
+			fp.stride = ex.lay.leaves(f.Type())
+			if hasOmitEmpty(doc.styp.Tag(di)) {
+				// a zero value was not written to the document: the target keeps what it holds
+				old := ex.load(st, fp, f.Type())
+				switch x := dv.(type) {
+				case *Term:
+					dv = ex.tt.Ite(ex.tt.Eq(x, ex.tt.Const(x.w, 0)), old.(*Term), x)
+				case StringV:
+					if x.s == "" {
+						dv = old
+					}
+				default:
+					unsupported("json stub: omitempty on %T", dv)
+				}
+			}
+			ex.store(st, fp, dv, f.Type())
+		}
+		return IfaceV{}
+	}
 	unsupported("json stub: %s", name)
+	return nil
+}
+
+// jsonDispatch: json.Marshal / json.Unmarshal on a type with its own
+// MarshalJSON / UnmarshalJSON method calls that method, as encoding/json does.
+func (ex *Executor) jsonDispatch(name string, args []Value) (*ssa.Function, []Value) {
+	switch name {
+	case "encoding/json.Marshal":
+		iv, ok := args[0].(IfaceV)
+		if !ok || iv.typ == nil {
+			return nil, nil
+		}
+		if m := ex.methodByName(iv.typ, "MarshalJSON"); m != nil {
+			return m, []Value{iv.val}
+		}
+	case "encoding/json.Unmarshal":
+		iv, ok := args[1].(IfaceV)
+		if !ok || iv.typ == nil {
+			return nil, nil
+		}
+		if m := ex.methodByName(iv.typ, "UnmarshalJSON"); m != nil {
+			return m, []Value{iv.val, args[0]}
+		}
+	}
+	return nil, nil
+}
+
+func (ex *Executor) methodByName(T types.Type, name string) *ssa.Function {
+	ms := ex.prog.MethodSets.MethodSet(T)
+	for i := 0; i < ms.Len(); i++ {
+		if ms.At(i).Obj().Name() == name {
+			return ex.prog.MethodValue(ms.At(i))
+		}
+	}
 	return nil
 }
